@@ -27,6 +27,9 @@ SITES_FREE = [0, 1, 2, 3, 4, 7, 8, 9, 10, 11, 13, 14, 15, 16, 17, 20, 22, 23, 24
 SITES_HASHED = [5, 6, 12, 18, 19, 21, 30, 31, 32, 33]
 
 
+_PRIME = [False]
+
+
 def build(site, d, nm):
     Q = QS[d]
     t = Table("t")
@@ -35,8 +38,11 @@ def build(site, d, nm):
         return Q.from_(Table(nm)).select(Field("a"))
     if site == 1:  # schema given as str
         return Q.from_(Table("t", schema=nm)).select(Field("a"))
-    if site == 2:  # schema chain Database.Schema.table
-        return Q.from_(Table("t", schema=Schema(nm, parent=Database("db")))).select(Field("a"))
+    if site == 2:  # schema chain Database.Schema.table; the table object was used (hashed, printed) before
+        tb = Table("t", schema=Schema("sc", parent=Schema(nm, parent=Database("db"))))
+        if _PRIME[0]:
+            hash(tb)  # (probe statement only: hashing a symbolic string enumerates it)
+        return Q.from_(tb).select(Field("a"))
     if site == 3:  # JOIN table (cross join: no criterion to validate)
         return Q.from_(t).join(Table(nm)).cross().select(Field("a"))
     if site == 4:  # column in SELECT
@@ -132,10 +138,22 @@ def check(site, d, nm, name):
     if nm == "t" or nm == "u" or nm == "z" or nm == "db":
         # collides with a companion object of the skeleton (self-join auto-alias, duplicate column): another program
         return SKIP
-    stmt_p = build(site, d, PROBE)
+    _PRIME[0] = True
+    try:
+        stmt_p = build(site, d, PROBE)
+    finally:
+        _PRIME[0] = False
     if stmt_p is None:
         return SKIP
     parts = stmt_p.get_sql(dctx(d)).split(q + PROBE + q)
+    # the companion identifiers of the skeleton (db, t, u, a ...) follow the same dialect: no quote character of another
+    # dialect anywhere in the statement (e.g. a schema prefix rendered earlier under another context and kept)
+    other = '"' if q == "`" else "`"
+    for part in parts:
+        if other in part:
+            note("sql", q + PROBE + q.join(parts))
+            note("why", "an identifier is quoted with another dialect's quote character")
+            return verdict(False, name, site=site, d=d, nm=nm)
     stmt = build(site, d, nm)
     out = stmt.get_sql(dctx(d))
     if site in (32, 33) and not (str(stmt) == out):
